@@ -20,6 +20,17 @@ theorem offered_append (k : Key) : ∀ (a b : List Op), offered k (a ++ b) = off
     split <;> simp
   | .discard _ :: a, b => by simp only [List.cons_append, offered, offered_append k a b]
 
+theorem mem_offered (k : Key) : ∀ (ops : List Op) (g : Frag) (t : Int), Op.inp g t ∈ ops → g.key = k →
+    g ∈ offered k ops
+  | [], _, _, h, _ => by cases h
+  | op :: ops, g, t, h, hk => by
+    rcases List.mem_cons.1 h with e | h'
+    · rw [← e]; simp [offered, hk]
+    · have := mem_offered k ops g t h' hk
+      cases op with
+      | inp f _ => simp only [offered]; split <;> simp [this]
+      | discard _ => simpa [offered] using this
+
 /-- Every stored fragment passed the security checks and was offered under its key. -/
 def Prov (H : List Op) (st : State) : Prop :=
   ∀ p ∈ st.flows, ∀ g ∈ p.2.list, securityChecks g = true ∧ g ∈ offered p.1 H
@@ -167,14 +178,15 @@ theorem prov_empty : Prov [] {} := fun p hp => by cases hp
 theorem defrag_safe (H : List Op) (st : State) (f : Frag) (t : Int) (h : Prov H st) :
     (∀ k, (defrag st f t).2 ≠ .panic k) ∧
     (dontDefrag f = false → ∀ d, (defrag st f t).2 = .out d → ∀ i b, d.payload[i]? = some b →
-      ∃ g, g ∈ offered f.key (H ++ [.inp f t]) ∧ Placed g i b) := by
+      ∃ g, (securityChecks g = true ∧ g ∈ offered f.key (H ++ [.inp f t])) ∧ Placed g i b) := by
   by_cases h1 : dontDefrag f = true
   · unfold defrag; simp only [h1, if_true]
     exact ⟨fun k hk => (by cases hk), fun hc => (by cases hc)⟩
   · have h1' : dontDefrag f = false := by simpa using h1
     by_cases h2 : securityChecks f = true
     · obtain ⟨hp, ho⟩ := insert_reply_safe (st.flOr f.key) f t
-        (fun g => g ∈ offered f.key (H ++ [.inp f t])) (stored_after H st f t h h2)
+        (fun g => securityChecks g = true ∧ g ∈ offered f.key (H ++ [.inp f t]))
+        (fun g hg => ⟨(stored_after H st f t h h2 g hg).1, stored_after H st f t h h2 g hg⟩)
       rw [defrag_eq st f t h1' h2]
       cases hr : ((st.flOr f.key).insert f t).2 with
       | out d =>
